@@ -261,12 +261,110 @@ func checkClones(root string) (facts []string, problems []string) {
 	return
 }
 
+// ---- sql: the ent repository's mutations are single guarded statements
+//
+//	(C10) the lifecycle guard travels inside the UPDATE's WHERE clause (`Where(task.StateEQ(<state>))`), so that
+//	      check and write are one SQL statement — the atomic step the linearizability argument assumes;
+//	(C13) every mutation method has exactly one write-statement call site (`Exec(ctx)` / `Save(ctx)`) and
+//	      opens no transaction of its own: a kill leaves a mutation fully applied or absent.
+var sqlSpecs = []struct {
+	file, method string
+	guards       []string // accepted arguments of task.StateEQ in the WHERE clause (nil: no guard expected)
+}{
+	{"repository/ent/repository.go", "AddTask", nil},
+	{"repository/ent/repository.go", "UpdateById", []string{"DefaultState", "StateScheduled"}},
+	{"repository/ent/repository.go", "Cancel", []string{"StateScheduled"}},
+	{"repository/ent/repository.go", "MarkAsDispatched", []string{"StateScheduled"}},
+	{"repository/ent/repository.go", "MarkAsDone", []string{"StateDispatched"}},
+	{"repository/ent/dispatch_reverter.go", "RevertDispatched", []string{"StateDispatched"}},
+	{"repository/ent/dispatch_reverter.go", "CancelDispatched", []string{"StateDispatched"}},
+}
+
+func checkSQL(root string) (facts []string, problems []string) {
+	fset := token.NewFileSet()
+	files := map[string]*ast.File{}
+	for _, sp := range sqlSpecs {
+		f, ok := files[sp.file]
+		if !ok {
+			var err error
+			f, err = parser.ParseFile(fset, filepath.Join(root, sp.file), nil, 0)
+			if err != nil {
+				problems = append(problems, fmt.Sprintf("%s: cannot parse: %v", sp.file, err))
+				continue
+			}
+			files[sp.file] = f
+		}
+		var fd *ast.FuncDecl
+		for _, d := range f.Decls {
+			if x, ok := d.(*ast.FuncDecl); ok && x.Body != nil && x.Name.Name == sp.method {
+				if _, rt := recvName(x); rt == "EntRepository" {
+					fd = x
+				}
+			}
+		}
+		name := "EntRepository." + sp.method
+		if fd == nil {
+			problems = append(problems, fmt.Sprintf("%s (%s): method not found", name, sp.file))
+			continue
+		}
+		writes, tx := 0, 0
+		var guards []string
+		ast.Inspect(fd.Body, func(n ast.Node) bool {
+			c, ok := n.(*ast.CallExpr)
+			if !ok {
+				return true
+			}
+			sel, ok := c.Fun.(*ast.SelectorExpr)
+			if !ok {
+				return true
+			}
+			switch sel.Sel.Name {
+			case "Exec", "Save", "ExecX", "SaveX":
+				if len(c.Args) == 1 {
+					if id, ok := c.Args[0].(*ast.Ident); ok && id.Name == "ctx" {
+						writes++
+					}
+				}
+			case "Tx", "BeginTx":
+				tx++
+			case "StateEQ":
+				if len(c.Args) == 1 {
+					if a, ok := c.Args[0].(*ast.SelectorExpr); ok {
+						guards = append(guards, a.Sel.Name)
+					}
+				}
+			}
+			return true
+		})
+		if writes != 1 || tx != 0 {
+			problems = append(problems, fmt.Sprintf("%s (%s): %d write statements, %d transactions (expected one statement, no transaction)", name, sp.file, writes, tx))
+			continue
+		}
+		if sp.guards != nil {
+			ok := false
+			for _, g := range guards {
+				for _, want := range sp.guards {
+					if g == want {
+						ok = true
+					}
+				}
+			}
+			if !ok {
+				problems = append(problems, fmt.Sprintf("%s (%s): the UPDATE carries no `Where(task.StateEQ(%s))` guard (found %v)", name, sp.file, strings.Join(sp.guards, "|"), guards))
+				continue
+			}
+		}
+		facts = append(facts, name+": one guarded write statement")
+	}
+	return
+}
+
 func cmdSrcFacts(args []string) {
 	var c common
 	fs := flag.NewFlagSet("srcfacts", flag.ExitOnError)
 	c.register(fs)
 	root := fs.String("root", "/repo", "repository root")
-	which := fs.String("facts", "lock,clone", "lock | clone | lock,clone")
+	which := fs.String("facts", "lock,clone,sql", "comma-separated subset of lock, clone, sql")
 	fs.Parse(args)
 	rep := &Report{Family: "srcfacts", Seed: c.seed, Dist: map[string]int{}, Config: map[string]string{"facts": *which}, Exhaustive: true}
 	var facts []string
@@ -285,6 +383,10 @@ func cmdSrcFacts(args []string) {
 	if strings.Contains(*which, "clone") {
 		f, p := checkClones(*root)
 		add("clone", f, p)
+	}
+	if strings.Contains(*which, "sql") {
+		f, p := checkSQL(*root)
+		add("sql", f, p)
 	}
 	rep.Histories = len(facts) + nprob
 	rep.Ops = rep.Histories
